@@ -9,6 +9,7 @@ package dnsserver
 import (
 	"bytes"
 	"context"
+	"errors"
 	"io"
 	"net"
 	"net/http"
@@ -22,14 +23,24 @@ import (
 	"github.com/quic-go/quic-go"
 )
 
-// c08Handler writes the scripted response.
+// c08Handler writes the scripted response, or gives up the way mode says:
+// "silent" returns nil without writing (as the rate-limit middleware does for a
+// dropped query), "error" returns an error without writing.
 type c08Handler struct {
 	resp *dns.Msg
+	mode string
 }
 
 // ServeDNS implements the [Handler] interface for *c08Handler.
 func (h *c08Handler) ServeDNS(ctx context.Context, rw ResponseWriter, req *dns.Msg) (err error) {
-	return rw.WriteMsg(ctx, req, h.resp)
+	switch h.mode {
+	case "silent":
+		return nil
+	case "error":
+		return errors.New("c08: scripted handler error")
+	default:
+		return rw.WriteMsg(ctx, req, h.resp)
+	}
 }
 
 // c08Metrics records recovered panics.
@@ -106,16 +117,32 @@ func (s *c08Stream) Write(p []byte) (n int, err error) { return s.out.Write(p) }
 func (s *c08Stream) Close() error                      { return nil }
 func (s *c08Stream) SetReadDeadline(_ time.Time) error { return nil }
 
-// c08QUICConn is a fake quic.Connection.
+// c08QUICConn is a fake quic.Connection: AcceptStream hands out the scripted
+// streams and then reports that the peer has closed the connection; the first
+// code the server closes the connection with is recorded.
 type c08QUICConn struct {
 	quic.Connection
+	streams    []quic.Stream
 	closedWith *quic.ApplicationErrorCode
 }
+
+func (c *c08QUICConn) AcceptStream(context.Context) (quic.Stream, error) {
+	if len(c.streams) == 0 {
+		return nil, &quic.ApplicationError{Remote: true, ErrorCode: 0}
+	}
+	st := c.streams[0]
+	c.streams = c.streams[1:]
+
+	return st, nil
+}
+func (c *c08QUICConn) ConnectionState() quic.ConnectionState { return quic.ConnectionState{} }
 
 func (c *c08QUICConn) LocalAddr() net.Addr  { return c08UDPLocal }
 func (c *c08QUICConn) RemoteAddr() net.Addr { return c08UDPRemote }
 func (c *c08QUICConn) CloseWithError(code quic.ApplicationErrorCode, _ string) error {
-	c.closedWith = &code
+	if c.closedWith == nil {
+		c.closedWith = &code
+	}
 
 	return nil
 }
@@ -258,20 +285,21 @@ var c08Paths = []c08Path{{
 }, {
 	c08Transport: c08Transport{Name: "doq", Encrypted: true, PadEnum: true},
 	run: func(rig *c08Rig, _ c08Case, req []byte) (obs c08Obs) {
+		// The real serveQUICConn serves one connection whose only stream
+		// carries the query (the highest seam that does not need quic-go's
+		// sockets); it returns when the stream has been served.
 		s := rig.doq
-		ctx, cancel := c08ReqCtx(s.ServerBase)
-		defer cancel()
+		s.started = true
+		ctx := ContextWithServerInfo(context.Background(), &ServerInfo{Name: s.name, Addr: s.addr, Proto: s.proto})
 		framed := make([]byte, 2+len(req))
 		framed[0], framed[1] = byte(len(req)>>8), byte(len(req))
 		copy(framed[2:], req)
 		st := &c08Stream{in: bytes.NewReader(framed)}
-		conn := &c08QUICConn{}
-		err := s.serveQUICStream(ctx, st, conn)
+		conn := &c08QUICConn{streams: []quic.Stream{st}}
+		_ = s.serveQUICConn(ctx, conn)
 		why := "nothing-written"
-		if conn.closedWith != nil {
+		if conn.closedWith != nil && *conn.closedWith != DOQCodeNoError {
 			why = "conn-closed"
-		} else if err != nil {
-			why = "error"
 		}
 
 		return c08StreamObs(st.out.Bytes(), why)
